@@ -2,6 +2,7 @@ package main
 
 import (
 	"fmt"
+	"regexp"
 	"go/token"
 	"go/types"
 	"math/big"
@@ -39,6 +40,7 @@ type Obligation struct {
 	Mode   string
 	Pos    string
 	nLines int
+	nStart int // first line of the region (function entry or enclosing loop header) whose assumptions are visible
 	Guard  Term
 	Cond   Term
 	Res    SolverResult
@@ -103,6 +105,8 @@ type VC struct {
 	needSubstr    bool
 	needStrOf     bool
 	entryLines    int
+	regionStart   int
+	noSlice       bool
 }
 
 func NewVC(prog *Program, specs *Specs, fn *ssa.Function, con *Contract, mode Mode) *VC {
@@ -140,6 +144,8 @@ func (vc *VC) reset() {
 	vc.closures = map[ssa.Value]*ssa.MakeClosure{}
 	vc.warnings = nil
 	vc.topFrame = nil
+	vc.regionStart = 0
+	vc.entryLines = 0
 	vc.usedGlobals = map[*ssa.Global]bool{}
 	vc.notes = map[string]bool{}
 	vc.topLocs = nil
@@ -172,6 +178,25 @@ func (vc *VC) assume(t Term) {
 		return
 	}
 	vc.emit("(assert " + t.S + ")")
+}
+
+// assumePath: an assumption that is conditional on the path taken so far (a callee's
+// postcondition, a loop invariant at its header). Regions that start at a later loop
+// header do not see it (modular loop verification): marked with a trailing comment.
+// assumeHdr: a loop invariant assumed at its header; kept in later regions (it is guarded by
+// the header's own reachability boolean, which inner loops imply).
+func (vc *VC) assumeHdr(t Term) {
+	if t.S == "true" {
+		return
+	}
+	vc.emit("(assert " + t.S + ") ;hdr")
+}
+
+func (vc *VC) assumePath(t Term) {
+	if t.S == "true" {
+		return
+	}
+	vc.emit("(assert " + t.S + ") ;path")
 }
 
 // assumeOnce adds a ground fact once.
@@ -210,6 +235,31 @@ func (vc *VC) registerState(name string, sort Sort) {
 	}
 }
 
+// memRanges: int mode only. name -> (bits, signed) for integer memory arrays.
+func (vc *VC) memRangeAxiom(name string, arr Term) string {
+	if vc.mode != ModeInt || !strings.HasPrefix(name, "Mem_") {
+		return ""
+	}
+	key := strings.TrimPrefix(name, "Mem_")
+	kinds := map[string][2]int{"int": {64, 1}, "int8": {8, 1}, "int16": {16, 1}, "int32": {32, 1}, "int64": {64, 1},
+		"uint": {64, 0}, "uint8": {8, 0}, "uint16": {16, 0}, "uint32": {32, 0}, "uint64": {64, 0}, "uintptr": {64, 0}}
+	k, ok := kinds[key]
+	if !ok {
+		return ""
+	}
+	r := Term{"qmr", SRef}
+	return "(assert " + Forall([]Term{r}, vc.inRange(Select(arr, r, SInt), k[0], k[1] == 1)).S + ")"
+}
+
+// freshState havocs a state variable (a new SMT constant with the type invariant of its cells).
+func (vc *VC) freshState(name string) Term {
+	t := vc.freshConst(stateSym(name), vc.stateSort[name])
+	if ax := vc.memRangeAxiom(name, t); ax != "" {
+		vc.emit(ax)
+	}
+	return t
+}
+
 func (vc *VC) entryTerm(name string) Term {
 	s, ok := vc.stateSort[name]
 	if !ok {
@@ -223,6 +273,38 @@ func stateSym(name string) string {
 }
 
 func (vc *VC) script(nLines int, tail string) string {
+	return vc.scriptSliced(nLines, tail, "", false)
+}
+
+// scriptRegion: loops are verified modularly. An obligation sees the global facts (parameter
+// invariants, preconditions: the lines up to entryLines), the declarations and definitions made
+// before its region, and every line of its region (from the enclosing loop header on).
+// Assumptions made before the loop header are dropped: what the body needs must be in the invariant.
+func (vc *VC) scriptRegion(nStart, nLines int, tail string) string {
+	if nStart <= vc.entryLines {
+		return vc.scriptSliced(nLines, tail, "", false)
+	}
+	var keep []string
+	keep = append(keep, vc.lines[:vc.entryLines]...)
+	for _, l := range vc.lines[vc.entryLines:nStart] {
+		if strings.HasSuffix(l, ";path") {
+			continue
+		}
+		keep = append(keep, l)
+	}
+	keep = append(keep, vc.lines[nStart:nLines]...)
+	return vc.scriptLines(keep, tail)
+}
+
+func (vc *VC) scriptSliced(nLines int, tail string, seed string, slice bool) string {
+	lines := vc.lines[:nLines]
+	if slice {
+		lines = vc.sliceLines(lines, seed)
+	}
+	return vc.scriptLines(lines, tail)
+}
+
+func (vc *VC) scriptLines(lines []string, tail string) string {
 	var b strings.Builder
 	b.WriteString(vc.preamble())
 	for _, d := range vc.typeDecls {
@@ -242,6 +324,9 @@ func (vc *VC) script(nLines int, tail string) string {
 	}
 	for _, n := range vc.stateOrder {
 		fmt.Fprintf(&b, "(declare-const %s_0 %s)\n", stateSym(n), vc.stateSort[n])
+		if ax := vc.memRangeAxiom(n, Term{stateSym(n) + "_0", vc.stateSort[n]}); ax != "" {
+			b.WriteString(ax + "\n")
+		}
 	}
 	for _, s := range vc.strOrder {
 		fmt.Fprintf(&b, "(declare-const %s Str)\n", vc.strLits[s].S)
@@ -261,7 +346,7 @@ func (vc *VC) script(nLines int, tail string) string {
 		b.WriteString(d)
 		b.WriteByte('\n')
 	}
-	for _, l := range vc.lines[:nLines] {
+	for _, l := range lines {
 		b.WriteString(l)
 		b.WriteByte('\n')
 	}
@@ -423,6 +508,17 @@ func (vc *VC) load(st State, ref Term, t types.Type) Term {
 		return vc.freshConst("tupload", ti.sort)
 	}
 	v := Select(st.get(vc, vc.memName(ti)), ref, ti.sort)
+	if vc.inQuant == 0 && vc.con != nil && vc.con.HasAssigns && vc.topFrame != nil && vc.fn != nil {
+		// frame fact for this load: every store of the function under contract is checked against its
+		// assigns clause (obligation kind "frame"), so a cell that existed at entry and is not listed
+		// still holds its entry value, whatever loop headers havocked in between
+		name := vc.memName(ti)
+		cur, ent := st.get(vc, name), vc.entryTerm(name)
+		if cur.S != ent.S {
+			cond := And(App(SBool, "<", vc.rootOf(ref), vc.topFrame.entryAlloc), Not(vc.inLocs(ref, name, vc.topLocs)))
+			vc.assumeOnce(Implies(cond, Eq(v, Select(ent, ref, ti.sort))))
+		}
+	}
 	if vc.inQuant == 0 {
 		inv := vc.typeInv(v, t)
 		if ti.kind == "ref" {
@@ -460,7 +556,7 @@ func (vc *VC) storeMem(st State, ref Term, t types.Type, v Term) {
 		}
 		name := vc.memName(ei)
 		oldm := st.get(vc, name)
-		newm := vc.freshConst(stateSym(name), oldm.Sort)
+		newm := vc.freshState(name)
 		r := Term{"qr", SRef}
 		in := And(App(SBool, "(_ is elem)", r), Eq(App(SRef, "ebase", r), ref),
 			vc.le(vc.idxLit(0), App(vc.idxSort(), "eidx", r), true), vc.lt(App(vc.idxSort(), "eidx", r), vc.idxLit(n), true))
@@ -629,13 +725,150 @@ func (vc *VC) addObligation(kind, text string, props []string, pos token.Pos, gu
 		props = vc.con.Props
 	}
 	ob := &Obligation{Name: name, Kind: kind, Func: fname, Text: text, Props: props, Mode: vc.mode.String(),
-		nLines: len(vc.lines), Guard: guard, Cond: cond}
+		nLines: len(vc.lines), nStart: vc.regionStart, Guard: guard, Cond: cond}
 	if pos.IsValid() {
 		p := vc.prog.SSA.Fset.Position(pos)
 		ob.Pos = fmt.Sprintf("%s:%d", p.Filename, p.Line)
 	}
 	vc.obligations = append(vc.obligations, ob)
 	return ob
+}
+
+var symRe = regexp.MustCompile(`[A-Za-z_][A-Za-z0-9_.$]*`)
+
+func isHubSymbol(s string) bool {
+	if strings.HasPrefix(s, "p_") || strings.HasPrefix(s, "fv_") || strings.HasPrefix(s, "strlit_") {
+		return true
+	}
+	if strings.HasPrefix(s, "st_") && strings.HasSuffix(s, "_0") {
+		return true
+	}
+	// reachability / edge booleans: f<N>_r_<k>, f<N>_r<block>_<k>, f<N>_e<a>_<b>_<k>, f<N>_be..., f<N>_rh...
+	if len(s) > 1 && s[0] == 'f' {
+		i := 1
+		for i < len(s) && s[i] >= '0' && s[i] <= '9' {
+			i++
+		}
+		if i > 1 && i < len(s) && s[i] == '_' {
+			rest := s[i+1:]
+			if strings.HasPrefix(rest, "r_") || strings.HasPrefix(rest, "rh") || strings.HasPrefix(rest, "be") ||
+				(len(rest) > 1 && (rest[0] == 'r' || rest[0] == 'e') && rest[1] >= '0' && rest[1] <= '9') {
+				return true
+			}
+		}
+	}
+	return false
+}
+
+// sliceLines keeps the declarations and definitions and only those assertions that are
+// connected (through non-hub symbols) to the obligation. Dropping assumptions is always sound.
+func (vc *VC) sliceLines(lines []string, seed string) []string {
+	type lineInfo struct {
+		kind string // declare | define | assert | other
+		name string
+		syms []string
+	}
+	infos := make([]lineInfo, len(lines))
+	defIdx := map[string]int{}
+	for i, l := range lines {
+		switch {
+		case strings.HasPrefix(l, "(declare-const "):
+			f := strings.Fields(l[len("(declare-const "):])
+			infos[i] = lineInfo{kind: "declare", name: f[0]}
+		case strings.HasPrefix(l, "(define-fun "):
+			f := strings.Fields(l[len("(define-fun "):])
+			infos[i] = lineInfo{kind: "define", name: f[0], syms: symRe.FindAllString(l[len("(define-fun ")+len(f[0]):], -1)}
+			defIdx[f[0]] = i
+		case strings.HasPrefix(l, "(assert "):
+			infos[i] = lineInfo{kind: "assert", syms: symRe.FindAllString(l, -1)}
+		default:
+			infos[i] = lineInfo{kind: "other"}
+		}
+	}
+	rel := map[string]bool{}
+	var work []string
+	add := func(s string) {
+		if !rel[s] {
+			rel[s] = true
+			work = append(work, s)
+		}
+	}
+	for _, s := range symRe.FindAllString(seed, -1) {
+		add(s)
+	}
+	included := make([]bool, len(lines))
+	// assertions that only talk about hubs are global facts
+	for i, li := range infos {
+		if li.kind != "assert" {
+			continue
+		}
+		allHub := true
+		for _, s := range li.syms {
+			if _, isDef := defIdx[s]; isDef || strings.Contains(s, "_") && !isHubSymbol(s) && (strings.HasPrefix(s, "f") || strings.HasPrefix(s, "st_") || strings.HasPrefix(s, "a_") || strings.HasPrefix(s, "alloc_") || strings.HasPrefix(s, "hv_") || strings.HasPrefix(s, "hm_")) {
+				allHub = false
+				break
+			}
+		}
+		if allHub {
+			included[i] = true
+			for _, s := range li.syms {
+				add(s)
+			}
+		}
+	}
+	for changed := true; changed; {
+		changed = false
+		for len(work) > 0 {
+			s := work[len(work)-1]
+			work = work[:len(work)-1]
+			if di, ok := defIdx[s]; ok {
+				for _, t := range infos[di].syms {
+					add(t)
+				}
+			}
+		}
+		for i, li := range infos {
+			if li.kind != "assert" || included[i] {
+				continue
+			}
+			hit := false
+			for _, s := range li.syms {
+				if rel[s] && !isHubSymbol(s) && (defIdx[s] > 0 || strings.Contains(s, "_")) && !isBuiltinSym(s) {
+					hit = true
+					break
+				}
+			}
+			if hit {
+				included[i] = true
+				changed = true
+				for _, s := range li.syms {
+					add(s)
+				}
+			}
+		}
+	}
+	var out []string
+	for i, l := range lines {
+		if infos[i].kind == "assert" && !included[i] {
+			continue
+		}
+		out = append(out, l)
+	}
+	return out
+}
+
+var builtinSyms = map[string]bool{"select": true, "store": true, "ite": true, "and": true, "or": true, "not": true, "forall": true, "exists": true,
+	"true": true, "false": true, "Int": true, "Bool": true, "Ref": true, "Slice": true, "Str": true, "Iface": true, "null": true, "obj": true, "fld": true, "elem": true,
+	"glob": true, "root": true, "sarr": true, "soff": true, "slen": true, "scap": true, "mkslice": true, "mkiface": true, "ityp": true, "ival": true, "is": true,
+	"addr_of": true, "ptr_of": true, "oid": true, "fbase": true, "fidx": true, "ebase": true, "eidx": true, "nil_iface": true, "mod": true, "div": true, "distinct": true,
+	"as": true, "const": true, "Array": true, "BitVec": true, "boxi": true, "boxs": true, "boxb": true, "bival": true, "bsval": true, "bbval": true, "let": true}
+
+func isBuiltinSym(s string) bool {
+	if builtinSyms[s] {
+		return true
+	}
+	return strings.HasPrefix(s, "q_") || strings.HasPrefix(s, "qi") || strings.HasPrefix(s, "qr") || strings.HasPrefix(s, "qz") || strings.HasPrefix(s, "qs") ||
+		strings.HasPrefix(s, "bv") || strings.HasPrefix(s, "str.") || strings.HasPrefix(s, "sf_") || strings.HasPrefix(s, "S_") || strings.HasPrefix(s, "T_") || strings.HasPrefix(s, "mk_") || strings.HasPrefix(s, "x") && len(s) > 1 && s[1] >= '0' && s[1] <= '9'
 }
 
 func (vc *VC) obligationScript(ob *Obligation, model bool) string {
@@ -648,7 +881,7 @@ func (vc *VC) obligationScript(ob *Obligation, model bool) string {
 	if model {
 		tail.WriteString("(get-model)\n")
 	}
-	s := vc.script(ob.nLines, tail.String())
+	s := vc.scriptRegion(ob.nStart, ob.nLines, tail.String())
 	if model {
 		s = "(set-option :produce-models true)\n" + s
 	}
